@@ -362,6 +362,9 @@ func c18SliceBounds(c *Ctx, r *Report) {
 							r.OK("R18.4b", key, c.Rel(sl.Pos()), "frozen: "+why)
 							continue
 						}
+						if os.Getenv("MLRLINT_DEBUG_BOUNDS") != "" {
+							fmt.Fprintf(os.Stderr, "BOUND %s %s bound=%s\n", key, c.Rel(sl.Pos()), bd.String())
+						}
 						r.Check(lenTested(b, sl.X), "R18.4b", key, c.Rel(sl.Pos()), "bound "+bd.Name()+" is length-tested",
 							fmt.Sprintf("%s slices with the run-time bound %s, which is neither derived from the sliced value nor produced by an index validator, and no test on the way mentions the length of the value being sliced: a bound beyond its length makes the process panic", SSAName(fn), bd.String()))
 					}
